@@ -84,8 +84,9 @@ type Result struct {
 	StepLimit bool   // step budget exhausted (treated like a livelock by callers that claim liveness)
 	Detail    string // which threads were stuck where
 	Panics    []PanicInfo
-	Detaches  int // number of times a thread had to be treated as externally blocked
-	Switches  int // number of context switches (resumed thread != previously running thread)
+	Detaches  int   // number of times a thread had to be treated as externally blocked
+	Switches  int   // number of context switches (resumed thread != previously running thread)
+	Options   []int // number of runnable threads at each decision (for exhaustive enumeration)
 }
 
 // Sched is one case's scheduler.
@@ -121,6 +122,7 @@ type Sched struct {
 	IdleSites map[string]bool
 	timer     *time.Timer
 
+	options     []int
 	lastStepped *Thread // the thread that made progress most recently
 	progressSeq int     // number of events applied so far
 }
@@ -434,6 +436,7 @@ func (s *Sched) Run() Result {
 			}
 			runnable = append(append(busy, idle...), spin...)
 		}
+		s.options = append(s.options, len(runnable))
 		c := s.nextChoice()
 		if c >= len(runnable) {
 			c = 0
@@ -458,6 +461,7 @@ func (s *Sched) Run() Result {
 	res.Trace = s.trace
 	res.Detaches = s.detaches
 	res.Switches = s.switches
+	res.Options = s.options
 	if res.Deadlock || res.Hang || res.StepLimit {
 		s.Abort()
 	}
@@ -637,4 +641,41 @@ func (s *Sched) Adopted() []*Thread {
 		}
 	}
 	return out
+}
+
+// Enumerate explores, depth first, every schedule with at most maxPreempt
+// non-default choices. run executes one schedule (a choice prefix; the rest is
+// "continue") and returns the number of options at each decision it met; it
+// returns false to stop. The scenario must be deterministic: the same prefix
+// must meet the same options. Returns the number of schedules run and whether
+// the space was exhausted.
+func Enumerate(maxPreempt, maxRuns int, run func(prefix []int) (options []int, ok bool)) (runs int, exhausted bool) {
+	prefix := []int{}
+	for runs < maxRuns {
+		options, ok := run(prefix)
+		runs++
+		if !ok {
+			return runs, false
+		}
+		choices := make([]int, len(options))
+		copy(choices, prefix)
+		i := len(options) - 1
+		for ; i >= 0; i-- {
+			used := 0
+			for _, c := range choices[:i] {
+				if c != 0 {
+					used++
+				}
+			}
+			if choices[i]+1 < options[i] && used+1 <= maxPreempt {
+				choices[i]++
+				prefix = append([]int(nil), choices[:i+1]...)
+				break
+			}
+		}
+		if i < 0 {
+			return runs, true
+		}
+	}
+	return runs, false
 }
